@@ -29,11 +29,14 @@ func subsetsKeys() [][]string { return [][]string{{}, {"a"}, {"b"}, {"a", "b"}} 
 // values(depth, leaves, maxArr): all JSON values of at most the given depth
 // over the leaves; maps over keys {a,b}; arrays up to maxArr elements without
 // duplicate members (arrays are sets).
-func values(depth int, leaves []J, maxArr int) []J {
+func values(depth int, leaves []J, maxArr int) []J { return valuesD(depth, leaves, maxArr, false) }
+
+// valuesD: with dups, array elements may repeat (pattern arrays are not sets).
+func valuesD(depth int, leaves []J, maxArr int, dups bool) []J {
 	if depth == 0 {
 		return leaves
 	}
-	sub := values(depth-1, leaves, maxArr)
+	sub := valuesD(depth-1, leaves, maxArr, dups)
 	out := append([]J{}, leaves...)
 	for _, ks := range subsetsKeys() {
 		var rec func(i int, m map[string]J)
@@ -61,7 +64,11 @@ func values(depth int, leaves []J, maxArr int) []J {
 			return
 		}
 		for i := start; i < len(sub); i++ {
-			arr(append(cur, sub[i]), i+1) // strictly increasing index: no duplicates, order-free
+			next := i + 1 // strictly increasing index: no duplicates, order-free
+			if dups {
+				next = i
+			}
+			arr(append(cur, sub[i]), next)
 		}
 	}
 	arr([]J{}, 0)
@@ -407,7 +414,7 @@ func TestBoundedC01Fits(t *testing.T) {
 	pleaves := []J{1.0, "x", true, nil, "?x", "?y", "?", "??o", "?<n"}
 	mleaves := []J{1.0, 2.0, "x", true, nil}
 	var patterns []J
-	for _, p := range values(depth, pleaves, 2) {
+	for _, p := range valuesD(depth, pleaves, 2, true) {
 		if supported(p) {
 			patterns = append(patterns, p)
 		}
